@@ -247,13 +247,13 @@ def build_lib(flags=None, exclude=(), tag="asan"):
 
 
 LOOP_WRAPS = ["clock_gettime", "syscall", "pipe", "epoll_create", "timerfd_create", "timerfd_settime", "epoll_ctl", "read",
-              "epoll_pwait2", "epoll_wait", "ppoll", "poll"]
+              "epoll_pwait2", "epoll_wait", "ppoll", "poll", "malloc"]
 
 
 MT_WRAPS = ["clock_gettime", "syscall", "timerfd_create", "timerfd_settime", "epoll_ctl", "read", "write",
             "epoll_pwait2", "epoll_wait", "ppoll", "poll", "pthread_mutex_lock", "pthread_mutex_unlock", "pthread_mutex_destroy",
             "pthread_spin_lock", "pthread_spin_unlock", "pthread_spin_trylock", "pthread_create", "pthread_join", "pthread_detach",
-            "pthread_sigmask", "sigaction", "getpid", "fork", "wait4", "kill"]
+            "pthread_sigmask", "sigaction", "getpid", "fork", "wait4", "kill", "malloc"]
 MT_SOURCES = ["mt_h.c", "mt_proc.c"]
 
 
